@@ -4,4 +4,4 @@ set -e
 B=/repo/_build
 cmake -S /repo -B $B -G Ninja -DCMAKE_BUILD_TYPE=RelWithDebInfo -DBUILD_TESTING=ON -DCMAKE_C_FLAGS="-Wno-error" >/dev/null
 cmake --build $B -j16 >/dev/null
-ctest --test-dir $B -j8 --timeout 900 "$@"
+exec ctest --test-dir $B -j8 --timeout 900 "$@"
